@@ -38,6 +38,11 @@ fn builder(c: &Case) -> SessionBuilder<C> {
 /// Returns (calls made, Some((call index, mismatched frames)) if a mismatch was reported, the call in which the
 /// deviating (k-th) simulation of X happened).
 fn drive(c: &Case, nondet: Option<(i32, u32)>, prop: &'static str, out: &mut Outcome) -> Option<(i32, Option<(i32, Vec<i32>)>, Option<i32>)> {
+    drive_mode(c, nondet, prop, out, 0)
+}
+
+/// `cks`: 0 = every save carries a checksum, 1 = no save does, n >= 2 = only frames divisible by n do.
+fn drive_mode(c: &Case, nondet: Option<(i32, u32)>, prop: &'static str, out: &mut Outcome, cks: i32) -> Option<(i32, Option<(i32, Vec<i32>)>, Option<i32>)> {
     let mut sess = match guarded(|| builder(c).start_synctest_session()) {
         Ok(Ok(s)) => s,
         Ok(Err(e)) => {
@@ -51,6 +56,11 @@ fn drive(c: &Case, nondet: Option<(i32, u32)>, prop: &'static str, out: &mut Out
     };
     let mut g = Game::new();
     g.nondet = nondet;
+    match cks {
+        0 => {}
+        1 => g.save_checksum = false,
+        n => g.checksum_mod = Some(n),
+    }
     let mut first_sim_call: Option<i32> = None;
     for call in 0..c.frames {
         let cf = sess.current_frame();
@@ -135,6 +145,18 @@ pub fn run_case(c: &Case) -> Outcome {
     }
     if !matches!(out.verdict, Verdict::Held) {
         return out;
+    }
+    // ... also when it saves without checksums, or with a checksum on some frames only (both are legitimate uses of
+    // GameStateCell::save; there is then nothing to compare, never a mismatch)
+    for cks in [1, 2, 3] {
+        out.count("deterministic_runs_with_partial_or_no_checksums", 1);
+        if let Some((_, Some((call, frames)), _)) = drive_mode(c, None, "C13", &mut out, cks) {
+            out.violate(viol("MismatchedChecksum for a deterministic game", format!("game saving {}: at call {call}, frames {frames:?}", if cks == 1 { "without checksums".to_string() } else { format!("with a checksum on every {cks}th frame only") })));
+            return out;
+        }
+        if !matches!(out.verdict, Verdict::Held) {
+            return out;
+        }
     }
     if c.cd >= 2 {
         for &x in &c.xs {
@@ -241,7 +263,7 @@ pub fn check(ctx: &Ctx) -> i32 {
     extra.insert("grid".into(), json!("players 1..=4 x window 0..=12 x check_distance 0..=13 x delay (quick {0,1,3,8}, thorough 0..=8) x sparse flag; every point is visited"));
     let meta = Meta {
         level: "exploration",
-        rule: "exhaustive grid of builder configurations: invalid ones (check_distance >= window, sparse saving) must be rejected with InvalidRequest, valid ones are run for 150 (quick) / 300 (thorough) frames with unique random inputs on a deterministic game (no MismatchedChecksum, request contract, every input Confirmed and equal to the submission delayed as configured) and, for check_distance >= 2, with a game whose k-th simulation (every k in 1..=min(check_distance, X)+1, i.e. the first simulation or any re-simulation) of frame X is perturbed, X over a placement set (quick: every X in 1..=check_distance+1, i.e. including the frames simulated before the first rollback, plus 6 random placements up to 60; thorough: every X in 1..=60): MismatchedChecksum must follow within check_distance+2 calls of the deviating simulation and name X+1 as first affected frame. Non-trivial: rejected invalid configuration, or valid configuration with check_distance >= 2 (comparison active) and >= 100 frames. Distinct: grid point.".into(),
+        rule: "exhaustive grid of builder configurations: invalid ones (check_distance >= window, sparse saving) must be rejected with InvalidRequest, valid ones are run for 150 (quick) / 300 (thorough) frames with unique random inputs on a deterministic game — saving with a checksum on every frame, on no frame, on every 2nd and on every 3rd frame — (no MismatchedChecksum, request contract, every input Confirmed and equal to the submission delayed as configured) and, for check_distance >= 2, with a game whose k-th simulation (every k in 1..=min(check_distance, X)+1, i.e. the first simulation or any re-simulation) of frame X is perturbed, X over a placement set (quick: every X in 1..=check_distance+1, i.e. including the frames simulated before the first rollback, plus 6 random placements up to 60; thorough: every X in 1..=60): MismatchedChecksum must follow within check_distance+2 calls of the deviating simulation and name X+1 as first affected frame. Non-trivial: rejected invalid configuration, or valid configuration with check_distance >= 2 (comparison active) and >= 100 frames. Distinct: grid point.".into(),
         assumptions: vec!["harness game is deterministic unless told otherwise".into(), "held on the executions produced, not verified".into()],
         floor_nontrivial: 500,
         exhaustive: Some(true),
